@@ -40,7 +40,7 @@ class Result:
         self.samples = (self.samples + o.samples)[:8]
 
 
-STRUCT = ["size", "format", "frames", "layers", "frame", "layer", "byname", "iter", "iterx", "tags", "tag",
+STRUCT = ["size", "format", "accx", "frames", "layers", "frame", "layer", "byname", "iter", "iterx", "tags", "tag",
           "gettag", "tagbyname", "slices", "slice", "key", "palette", "pal", "extfiles", "extfile",
           "tilesets", "tileset", "sprite_ud"]
 CELS = ["celA", "celB", "celC"]
@@ -362,6 +362,14 @@ def structure_cases():
             for cn, c in cels:
                 # a second frame whose cel links to the first frame's (image, tilemap or nothing)
                 out.append((f"xref2/{tn}/{ln}/{cn}", mk_header(2, 2, 2) + mk_frame(ts + [l] + c) + mk_frame([link])))
+    # user data with nothing to attach to (must be refused), and with only context-neutral chunks before it
+    pal = mk_chunk(0x2019, struct.pack("<III", 1, 0, 0) + bytes(8) + struct.pack("<HBBBB", 0, 1, 2, 3, 255))
+    prof = mk_chunk(0x2007, struct.pack("<HHI", 1, 0, 0) + bytes(8))
+    ext = mk_chunk(0x2008, struct.pack("<I", 0) + bytes(8))
+    for tag, pre in (("first", []), ("after-palette", [pal]), ("after-profile", [prof]), ("after-extfiles", [ext]),
+                     ("after-ignorable", [mk_chunk(0x2017, b"")]), ("after-layer", [mk_layer()])):
+        out.append((f"dangling-ud/{tag}", mk_header(1, 2, 2) + mk_frame(pre + [ud, mk_layer(name=b"Z")])))
+        out.append((f"dangling-ud/{tag}/frame1", mk_header(2, 2, 2) + mk_frame(pre) + mk_frame([ud, mk_layer(name=b"Z")])))
     # tileset chunks whose declared sizes are extreme in all three fields at once
     for depth in (8, 16, 32):
         for count in (0xFFFFFFFF, 0x80000000, 0x40008001, 0x10000, 1):
